@@ -848,7 +848,13 @@ class TokenizerCore:
             if self._scan_comment(word):
                 return
             if prev_space or single_token or not char:
-                self._advance(size - 1)
+                if " " in word and not sql[self._current : self._current + size - 1].isprintable():
+                    # The whitespace inside a multi-word keyword may contain line breaks:
+                    # step through it so that line and column stay accurate
+                    for _ in range(size - 1):
+                        self._advance()
+                else:
+                    self._advance(size - 1)
                 word = word.upper()
                 self._add(self.keywords[word], text=word)
                 return
